@@ -295,7 +295,10 @@ def answerCost (r : Req) (c : Cfg) : String :=
     match gate with
     | .error e => s!"{e.name} t=0 f=0"
     | .ok () =>
-      if i.isDone then "none t=0 f=0"
+      if i.isDone then
+        match A.start i.anch with
+        | none => if i.anch then "err-anchored t=0 f=0" else "err-unanchored t=0 f=0"
+        | some _ => "none t=0 f=0"
       else
         let earliest := k == .std || i.earliest
         match A.start i.anch with
